@@ -165,6 +165,25 @@ def stereo_mol_graph_to_rdmol(
 
     map_num_idx_dict = {v: k for k, v in idx_map_num_dict.items()}
 
+    # Octahedral centres are encoded through the order of their bonds. The
+    # bonds have to be re-added before any other chiral tag is derived from
+    # the neighbor order of an atom, otherwise a stereogenic ligand atom that
+    # was handled earlier ends up with the metal at another position of its
+    # neighbor list (and with the opposite handedness).
+    for atom in graph.atoms:
+        a_stereo = graph.get_atom_stereo(atom)
+        if a_stereo is not None and isinstance(a_stereo, Octahedral):
+            atom_idx = map_num_idx_dict[atom]
+            for rd_n in mol.GetAtomWithIdx(atom_idx).GetNeighbors():
+                mol.RemoveBond(rd_n.GetIdx(), atom_idx)
+
+            for a in (1, 5, 6, 3, 4, 2):
+                a = a_stereo.atoms[a]
+                mol.AddBond(
+                    atom_idx,
+                    map_num_idx_dict[a],
+                )
+
     for atom in graph.atoms:
         a_stereo = graph.get_atom_stereo(atom)
         atom_idx = map_num_idx_dict[atom]
@@ -297,15 +316,8 @@ def stereo_mol_graph_to_rdmol(
                             break
 
         elif a_stereo is not None and isinstance(a_stereo, Octahedral):
-            for rd_n in rd_atom.GetNeighbors():
-                mol.RemoveBond(rd_n.GetIdx(), atom_idx)
-
-            for a in (1, 5, 6, 3, 4, 2):
-                a = a_stereo.atoms[a]
-                mol.AddBond(
-                    atom_idx,
-                    map_num_idx_dict[a],
-                )
+            # the bonds were already brought into the order of the
+            # descriptor (see above)
             rd_atom.SetChiralTag(Chem.ChiralType.CHI_OCTAHEDRAL)
             rd_atom.SetHybridization(Chem.HybridizationType.SP3D2)
             if a_stereo.parity == 1:
